@@ -2105,6 +2105,10 @@ impl AnnotationStore {
                         if strict {
                             self.remove_cascaded(a_handle)?;
                         } else {
+                            if <AnnotationStore as StoreFor<Annotation>>::get(self, a_handle).is_err() {
+                                //already removed by the cascade of an earlier annotation
+                                continue;
+                            }
                             let annotation = self.get_mut(a_handle)?;
                             let prelen = annotation.raw_data().len();
                             annotation.remove_data(set_handle, data_handle);
